@@ -109,7 +109,9 @@ theorem decodeO_er (C : CodecNew) (o : DecO) (inp : Fec.Bytes) (hs : o.dec.sets 
     rw [map_p_er, List.any_map]; rfl
   by_cases c4 : set.pkts.any (fun q => seqid q.p == seqid inp) = true
   · have hm : o.dec.decode C inp =
-        { st := { o.dec with tune := o.dec.tune.sample (flag inp == typeData) (seqid inp) }, recovered := [] } := by
+        { st := { o.dec with tune := o.dec.tune.sample (flag inp == typeData) (seqid inp),
+                             newest := if o.dec.sets.isEmpty then seqid inp / u32 o.dec.n else o.dec.newest },
+          recovered := [] } := by
       unfold Decoder.decode; simp only []; rw [if_neg c1, if_neg c2, if_neg c3, hlk, hany, if_pos c4]
     rw [if_pos c4, hm]; exact ⟨rfl, rfl, rfl, hs⟩
   rw [if_neg c4]
@@ -117,24 +119,24 @@ theorem decodeO_er (C : CodecNew) (o : DecO) (inp : Fec.Bytes) (hs : o.dec.sets 
     rw [map_p_er, List.map_append]; rfl
   have hlen : ((erS set).pkts ++ [inp]).length = (set.pkts ++ [(⟨inp, o.gh.next⟩ : PktO)]).length := by
     rw [hpl, List.length_map]
+  have hemp : o.dec.sets.isEmpty = o.sets.isEmpty := by
+    rw [hs]; unfold erSets; cases o.sets <;> rfl
   -- the model's result in this branch
   have hm : o.dec.decode C inp =
       { st := { o.dec with
                 tune := o.dec.tune.sample (flag inp == typeData) (seqid inp),
-                sets := Fec.discard o.dec.n
-                  (if itimediff (seqid inp / u32 o.dec.n * u32 o.dec.n) (o.dec.newest * u32 o.dec.n) > 0
-                    then seqid inp / u32 o.dec.n else o.dec.newest)
+                sets := Fec.discard o.dec.n (newestAfter o.dec.n o.dec.sets.isEmpty (seqid inp / u32 o.dec.n) o.dec.newest)
                   (store { id := seqid inp / u32 o.dec.n,
                            pkts := if decide (((erS set).pkts ++ [inp]).length ≥ o.dec.d) = true then [] else (erS set).pkts ++ [inp] }
                     o.dec.sets),
-                newest := if itimediff (seqid inp / u32 o.dec.n * u32 o.dec.n) (o.dec.newest * u32 o.dec.n) > 0
-                    then seqid inp / u32 o.dec.n else o.dec.newest },
+                newest := newestAfter o.dec.n o.dec.sets.isEmpty (seqid inp / u32 o.dec.n) o.dec.newest },
         recovered := if decide (((erS set).pkts ++ [inp]).length ≥ o.dec.d) = true
-          then recover { o.dec with tune := o.dec.tune.sample (flag inp == typeData) (seqid inp) } ((erS set).pkts ++ [inp]) else [] } := by
+          then recover { o.dec with tune := o.dec.tune.sample (flag inp == typeData) (seqid inp) } ((erS set).pkts ++ [inp]) else [],
+        panic := decide (inp.length > mtuLimit) ||
+          (decide (((erS set).pkts ++ [inp]).length ≥ o.dec.d) &&
+            recoverPanics { o.dec with tune := o.dec.tune.sample (flag inp == typeData) (seqid inp) } ((erS set).pkts ++ [inp])) } := by
     unfold Decoder.decode; simp only []; rw [if_neg c1, if_neg c2, if_neg c3, hlk, hany, if_neg c4]; rfl
-  have hsets_full : ∀ g, (o.dec.decode C inp).st.sets = erSets (discardO o.dec.n
-      (if itimediff (seqid inp / u32 o.dec.n * u32 o.dec.n) (o.dec.newest * u32 o.dec.n) > 0
-        then seqid inp / u32 o.dec.n else o.dec.newest)
+  have hsets_full : ∀ g, (o.dec.decode C inp).st.sets = erSets (discardO o.dec.n (newestAfter o.dec.n o.sets.isEmpty (seqid inp / u32 o.dec.n) o.dec.newest)
       (storeO { id := seqid inp / u32 o.dec.n, pkts := [] } o.sets) g).sets ∨
       ¬ (set.pkts ++ [(⟨inp, o.gh.next⟩ : PktO)]).length ≥ o.dec.d := by
     intro g
@@ -142,23 +144,22 @@ theorem decodeO_er (C : CodecNew) (o : DecO) (inp : Fec.Bytes) (hs : o.dec.sets 
     · left
       rw [hm]
       show Fec.discard _ _ (store _ o.dec.sets) = _
-      rw [hlen, if_pos (decide_eq_true hf), hs]
+      rw [hlen, if_pos (decide_eq_true hf), hemp, hs]
       rw [← discard_er _ _ _ g, ← store_er]; rfl
     · right; exact hf
-  have hp : (o.dec.decode C inp).panic = false := by rw [hm]
   split
   · rename_i hf
     have hS := fun g => (hsets_full g).resolve_right (fun hn => hn hf)
     split
-    · exact ⟨rfl, rfl, hp.symm, hS _⟩
+    · exact ⟨rfl, rfl, rfl, hS _⟩
     · split
-      · exact ⟨rfl, rfl, hp.symm, hS _⟩
-      · exact ⟨rfl, rfl, hp.symm, hS _⟩
+      · exact ⟨rfl, rfl, rfl, hS _⟩
+      · exact ⟨rfl, rfl, rfl, hS _⟩
   · rename_i hf
-    refine ⟨rfl, rfl, hp.symm, ?_⟩
+    refine ⟨rfl, rfl, rfl, ?_⟩
     rw [hm]
     show Fec.discard _ _ (store _ o.dec.sets) = _
-    rw [hlen, if_neg (fun h => hf (of_decide_eq_true h)), hs, hpl]
+    rw [hlen, if_neg (fun h => hf (of_decide_eq_true h)), hemp, hs, hpl]
     rw [← discard_er _ _ _ o.gh.get, ← store_er]; rfl
 
 end KcpVerif.FecOwn
